@@ -875,8 +875,23 @@ class SigmaRegularExpression(SigmaType):
         """
         Replace all occurrences of string part matching regular expression with placeholder.
         """
+
+
+        def regexp_callback(
+            placeholder: Placeholder,
+        ) -> Iterator[str | SpecialChars | Placeholder | "SigmaString"]:
+            # In the text of a regular expression the wildcard characters are plain characters: a
+            # wildcard that replaces a placeholder is written as the corresponding expression.
+            for replacement in callback(placeholder):
+                if replacement is SpecialChars.WILDCARD_MULTI:
+                    yield SigmaString(".") + SpecialChars.WILDCARD_MULTI  # printed as .*
+                elif replacement is SpecialChars.WILDCARD_SINGLE:
+                    yield "."
+                else:
+                    yield replacement
+
         result = []
-        for sigmastr in self.regexp.replace_placeholders(callback):
+        for sigmastr in self.regexp.replace_placeholders(regexp_callback):
             regexp = SigmaRegularExpression(str(sigmastr), self.flags)
             if sigmastr.contains_placeholder():
                 # Placeholders handed back by the callback were printed as %name% above. They must
